@@ -54,8 +54,8 @@ pub open spec fn g_init<I, O>() -> G<I, O> { G { dn: dn_init(), up: up_init(), r
 #[verifier::external_body] pub fn fresh_heap<O>() -> (h: Heap<O>) ensures !h.alloc_acc { unimplemented!() }
 
 //@include passthrough_common.rs TP="I, O" G="G<I, O>" HEAP=Heap<O>
-//@invpart data @C07 scan: output is the list of running folds of the input, reducer applied once per item
-//@invpart pull @C14 demand conservation: every sink Pull is carried upstream
+//@invpart data @C07,C06 scan: output is the list of running folds of the input, reducer applied once per item
+//@invpart pull @C14,C06 demand conservation: every sink Pull is carried upstream
 pub open spec fn inv_data<I, O>(h: Heap<O>, g: G<I, O>, c: Cap) -> bool {
     &&& g.dn.data =~= scan_seq::<I, O>(g.up.data)
     &&& (g.up.phase != Up::Idle ==> h.acc == fold::<I, O>(g.up.data))
